@@ -53,11 +53,23 @@ def make_gate(d):
     return getattr(G, c)()
 
 
-def build_qc(n, gates_json, enhanced=False, share_ids=True):
-    """real circuit with the given gates; equal 'id' > 0 -> the same gate object"""
+def new_qc(n, names=None, enhanced=False):
+    """empty real circuit on n qubits; `names` = user-chosen qubit names (added one by one with add_qubit)"""
     from qlasskit.qcircuit import QCircuit, QCircuitEnhanced
 
-    qc = (QCircuitEnhanced if enhanced else QCircuit)(n)
+    cls = QCircuitEnhanced if enhanced else QCircuit
+    if names is None:
+        return cls(n)
+    assert len(names) == n
+    qc = cls(0)
+    for nm in names:
+        qc.add_qubit(nm)
+    return qc
+
+
+def build_qc(n, gates_json, enhanced=False, share_ids=True, names=None):
+    """real circuit with the given gates; equal 'id' > 0 -> the same gate object"""
+    qc = new_qc(n, names, enhanced)
     objs = {}
     for d in gates_json:
         if share_ids and d.get("id", 0) and d["id"] in objs:
@@ -74,6 +86,124 @@ def build_qc(n, gates_json, enhanced=False, share_ids=True):
                 pass
         qc.append(g, list(d["w"]), p)
     return qc
+
+
+def _param(d):
+    p = d.get("p")
+    if isinstance(p, str):
+        try:
+            p = float(p)
+        except ValueError:
+            pass
+    return p
+
+
+def build_api(recipe):
+    """real circuit composed through the library's own API (the way gate objects come to be shared between
+    positions of one circuit: the same sub-circuit appended twice, a circuit appended to itself, ...).
+
+    recipe = {n, names?, subs: [{n, gates}], steps: [step]},  step =
+      {op: "gate", g: gate}                       qc.append(new gate object, wires, param)
+      {op: "iadd", sub: k}                        qc += subs[k]
+      {op: "append_circuit", sub: k, qubits: []}  qc.append_circuit(subs[k], qubits)
+      {op: "add", sub: k}                         qc = qc + subs[k]
+      {op: "iadd_self"}                           qc += qc
+      {op: "repeat", times: t}                    qc = qc.repeat(t)
+    """
+    subs = [build_qc(s["n"], s["gates"]) for s in recipe.get("subs", [])]
+    qc = new_qc(recipe["n"], recipe.get("names"))
+    for st in recipe["steps"]:
+        op = st["op"]
+        if op == "gate":
+            qc.append(make_gate(st["g"]), list(st["g"]["w"]), _param(st["g"]))
+        elif op == "iadd":
+            qc += subs[st["sub"]]
+        elif op == "append_circuit":
+            qc.append_circuit(subs[st["sub"]], list(st["qubits"]))
+        elif op == "add":
+            qc = qc + subs[st["sub"]]
+        elif op == "iadd_self":
+            qc += qc
+        elif op == "repeat":
+            qc = qc.repeat(st["times"])
+        else:
+            raise ValueError(op)
+    return qc
+
+
+def expand_recipe(recipe):
+    """the gate list a recipe denotes, computed here (not by the library): (gates without ids)"""
+    out = []
+
+    def strip(d, w=None):
+        e = dict(d, id=0)
+        e["w"] = list(d["w"] if w is None else w)
+        return e
+
+    for st in recipe["steps"]:
+        op = st["op"]
+        if op == "gate":
+            out.append(strip(st["g"]))
+        elif op in ("iadd", "add"):
+            out.extend(strip(d) for d in recipe["subs"][st["sub"]]["gates"])
+        elif op == "append_circuit":
+            q = st["qubits"]
+            out.extend(strip(d, [q[i] for i in d["w"]]) for d in recipe["subs"][st["sub"]]["gates"])
+        elif op == "iadd_self":
+            out.extend([strip(d) for d in out])
+        elif op == "repeat":
+            out = [strip(d) for _ in range(max(st["times"], 0)) for d in out]
+        else:
+            raise ValueError(op)
+    return out
+
+
+def api_case(recipe):
+    """(n, gates, opts) of a circuit built through the library's composition API: the gate list is the harness' own
+    expansion of the recipe (what an oracle judges), the ids are the identities of the gate objects of the circuit
+    the API really built"""
+    key = lambda d: (d["c"], d["n"], d["g"], tuple(d["w"]), d.get("p"))
+    want = expand_recipe(recipe)
+    opts = dict(recipe=recipe, names=recipe.get("names"))
+    try:
+        got = qc_to_json(build_api(recipe), {})
+    except Exception as e:  # noqa
+        opts["api_mismatch"] = f"{type(e).__name__}: {e}"
+        return (recipe["n"], want, opts)
+    if [key(d) for d in got] != [key(d) for d in want]:
+        opts["api_mismatch"] = [[d["c"], d["w"]] for d in got]
+        return (recipe["n"], want, opts)
+    return (recipe["n"], got, opts)
+
+
+def with_ids(gates_json, start=1):
+    """copies of the gates carrying ids start, start+1, ...: appending the returned list twice to a case means
+    'the same gate objects again' for build_qc"""
+    return [dict(d, id=start + i) for i, d in enumerate(gates_json)]
+
+
+def shared_positions(gates_json):
+    """number of gates of the list whose gate object also occurs at an earlier position"""
+    seen, k = set(), 0
+    for d in gates_json:
+        i = d.get("id", 0)
+        if i:
+            if i in seen:
+                k += 1
+            seen.add(i)
+    return k
+
+
+def name_schemes(n):
+    """user-chosen qubit names whose textual order differs from the index order"""
+    return {
+        "default": None,
+        "letters": [chr(ord("a") + (i * 7) % 26) for i in range(n)] if n <= 26 else [f"v{i}" for i in range(n)],
+        "reversed-q": [f"q{n - 1 - i}" for i in range(n)],
+        "shifted-q": [f"q{(i + 1) % n}" for i in range(n)],
+        "padded": [f"q{i:02d}" for i in range(n)],
+        "words": [f"{'xyzw'[i % 4]}{n - i}" for i in range(n)],
+    }
 
 
 def run_classical(gates_json, state):
